@@ -7,7 +7,7 @@
    analysis, knot by induction on the fuel; `gshape` implies the check by induction on the tree. *)
 From TsRs Require Import Base.Str Base.Outcome Gen.Tables Model.Case Model.TsAst Model.Rust Model.Docs Model.Gen
   Spec.RtyInd Spec.TsGrammar Spec.TsSyn Spec.TsFree Spec.TsSem Spec.GenClean
-  Model.Path Model.Merge Model.GenExport Proofs.Gen_base_proofs Proofs.Sem_base_proofs Proofs.Docs_proofs Proofs.Grammar_proofs Proofs.Grammar_export_proofs Proofs.Path_clean_proofs Proofs.Merge_text_proofs.
+  Model.Path Model.Merge Model.MergeSpec Model.GenExport Proofs.Gen_base_proofs Proofs.Sem_base_proofs Proofs.Docs_proofs Proofs.Grammar_proofs Proofs.Grammar_export_proofs Proofs.Path_clean_proofs Proofs.Merge_text_proofs.
 From Coq Require Import List NArith Bool Lia.
 Import ListNotations.
 Open Scope N_scope.
@@ -783,18 +783,37 @@ Proof.
   intros m0 E. inversion E. reflexivity.
 Qed.
 
+Theorem export_parts_checked fuel t dir m docs dc : cleanb dir = true ->
+  export_parts is_upper is_alnum is_numeric R esm cwd fuel t dir = Ok (m, docs, dc) ->
+  forallb group_okb m = true /\ docs_okb docs = true /\ decl_ok is_alnum is_numeric dc = true.
+Proof.
+  intros Hdir Hp. unfold export_parts in Hp.
+  destruct (out_path R (without_generics t)); [|discriminate].
+  apply bind_ok in Hp as (deps & Hdeps & Hp). apply bind_ok in Hp as (m' & Hm & Hp).
+  destruct t as [| | | | | | | | |id args| |]; try discriminate. destruct (lookup R id) as [d|] eqn:Hl; [|discriminate].
+  apply bind_ok in Hp as (dc' & Hdc & Hp). inversion Hp; subst m' docs dc'. clear Hp.
+  destruct (decl_of_checked _ _ _ Hcls R HR fuel id d dc Hl Hdc) as [H1 _].
+  split; [exact (import_groups_ok _ dir deps m Hdir (dependencies_ok _ _ _ Hdeps) Hm)|]. split; [apply docs_always_ok | exact H1].
+Qed.
+
 Theorem export_checked fuel t dir s : cleanb dir = true ->
   export_string is_upper is_alnum is_numeric R esm cwd fuel t dir = Ok s ->
   export_okb is_upper is_alnum is_numeric R esm cwd fuel t dir = true.
 Proof.
   intros Hdir Hs. destruct (export_string_parts _ _ _ _ _ _ _ _ _ _ Hs) as (m & docs & dc & Hp & _).
-  unfold export_okb. rewrite Hp. unfold export_parts in Hp.
-  destruct (out_path R (without_generics t)); [|discriminate].
-  apply bind_ok in Hp as (deps & Hdeps & Hp). apply bind_ok in Hp as (m' & Hm & Hp).
-  destruct t as [| | | | | | | | |id args| |]; try discriminate. destruct (lookup R id) as [d|] eqn:Hl; [|discriminate].
-  apply bind_ok in Hp as (dc' & Hdc & Hp). inversion Hp; subst m' docs dc'. clear Hp.
-  destruct (decl_of_checked _ _ _ Hcls R HR fuel id d dc Hl Hdc) as [H1 _]. rewrite H1, docs_always_ok.
-  change (imports_okb is_alnum is_numeric m) with (forallb group_okb m).
-  rewrite (import_groups_ok _ dir deps m Hdir (dependencies_ok _ _ _ Hdeps) Hm). reflexivity.
+  unfold export_okb. rewrite Hp. destruct (export_parts_checked fuel t dir m docs dc Hdir Hp) as (H1 & H2 & H3).
+  change (imports_okb is_alnum is_numeric m) with (forallb group_okb m). rewrite H1, H2, H3. reflexivity.
+Qed.
+
+(* several exports sharing a file: the canonical file (C05) of any set of exports of the environment is a module *)
+Theorem merged_exports_parse items :
+  Forall (fun i => exists fuel t dir m docs dc, cleanb dir = true /\
+            export_parts is_upper is_alnum is_numeric R esm cwd fuel t dir = Ok (m, docs, dc) /\
+            it_imports i = m /\ it_block i = docs ++ lit "export " ++ print_decl dc) items ->
+  module is_alnum is_numeric (canonical_file items).
+Proof.
+  intros H. apply (canonical_file_in_grammar is_alnum is_numeric). revert H. apply Forall_impl.
+  intros i (fuel & t & dir & m & docs & dc & Hdir & Hp & Hi & Hb). destruct (export_parts_checked fuel t dir m docs dc Hdir Hp) as (H1 & H2 & H3).
+  rewrite Hi, Hb. split; [exact H1 | apply (export_block is_alnum is_numeric Hcls); assumption].
 Qed.
 End Export.
